@@ -11,6 +11,8 @@ import Voi.Drv.Lattice
 import Voi.Drv.Batch
 import Voi.Drv.T0
 import Voi.Drv.Sr25519
+import Voi.Drv.Field
+import Voi.Drv.Panic
 namespace Voi.Drv
 
 structure DrvState where
@@ -36,6 +38,8 @@ def dispatch (st : DrvState) (ws : List String) : DrvState × String :=
   | "E1" :: op :: a => (st, handleE1 op a)
   | "L1" :: op :: a => (st, handleL1 op a)
   | "Q1" :: op :: a => let (s, r) := handleQ1 st.sr op a; ({ st with sr := s }, r)
+  | "P1" :: op :: a => (st, handleP1 op a)
+  | "F2" :: op :: a => (st, handleF2 op a)
   | "T0" :: op :: a => (st, handleT0 st.ir op a)
   | "B1" :: op :: a => let r := handleBatch st.batch "B1" op a; ({ st with batch := r.1 }, r.2)
   | "C1" :: op :: a => let r := handleBatch st.batch "C1" op a; ({ st with batch := r.1 }, r.2)
